@@ -200,3 +200,53 @@ Outcome guarded(const std::function<void()>& f, bool expect_fatal);
 Outcome in_child(const std::function<void()>& f);
 void child_mode();   // called in a forked child: the at-exit crash hook is disarmed
 }
+
+// ---------------------------------------------------------------- environment monitors
+#include <cfenv>
+#include <condition_variable>
+#include <mutex>
+#include <thread>
+#include <xmmintrin.h>
+namespace vh {
+// what a library call must leave as it found it: SSE control bits (rounding, flush-to-zero, denormals-are-zero, exception masks; the sticky
+// exception FLAGS are ignored), the x87 control word, the C rounding mode
+struct FpEnv {
+  unsigned mxcsr; unsigned short x87cw; int round;
+  bool operator==(const FpEnv& o) const { return mxcsr == o.mxcsr && x87cw == o.x87cw && round == o.round; }
+  std::string str() const { char b[96]; snprintf(b, sizeof b, "mxcsr=%#x x87cw=%#x round=%d", mxcsr, (unsigned)x87cw, round); return b; }
+};
+inline FpEnv fpenv_now() { FpEnv e; e.mxcsr = _mm_getcsr() & ~0x3fu; unsigned short cw; __asm__ __volatile__("fnstcw %0" : "=m"(cw)); e.x87cw = cw; e.round = fegetround(); return e; }
+
+// A persistent second thread that executes closures one at a time while the caller waits: the library is never used concurrently, but
+// it is used from a thread other than the one that initialised / selected (state kept per thread would show).
+class Worker {
+ public:
+  void run(const std::function<void()>& f) {
+    std::unique_lock<std::mutex> lk(m_);
+    if (!started_) { started_ = true; th_ = std::thread([this] { loop(); }); th_.detach(); }
+    job_ = &f; has_job_ = true; done_ = false; thrown_ = false;
+    cv_.notify_all();
+    cv_.wait(lk, [this] { return done_; });
+    if (thrown_) { int c = code_; lk.unlock(); throw c; }   // masa_exit in the exceptions build: re-thrown in the calling thread
+  }
+ private:
+  void loop() {
+    std::unique_lock<std::mutex> lk(m_);
+    for (;;) {
+      cv_.wait(lk, [this] { return has_job_; });
+      has_job_ = false;
+      const std::function<void()>* j = job_;
+      lk.unlock();
+      bool th = false; int code = 0;
+      try { (*j)(); } catch (int c) { th = true; code = c; }
+      lk.lock();
+      thrown_ = th; code_ = code;
+      done_ = true;
+      cv_.notify_all();
+    }
+  }
+  std::mutex m_; std::condition_variable cv_; std::thread th_;
+  const std::function<void()>* job_ = nullptr; bool has_job_ = false, done_ = false, started_ = false, thrown_ = false; int code_ = 0;
+};
+extern Worker& WORKER;
+}
